@@ -9,6 +9,14 @@ Search (oracle independent of the model):
       generated programs: transfer_bytes is a pair with 0 <= min <= max, NaN only when a chunk size
       of the node or of one of its inputs is unknown; a Rechunk to identical chunks and every node
       whose own layer consists of Alias tasks only report (0, 0).
+  (c) class coverage: the classes that DEFINE transfer_bytes are enumerated from the source tree on every run
+      (harness/props_ext/c27_catalog.py) together with all ArrayExpr subclasses; a catalog stream (rechunk with
+      method=tasks/p2p by kwarg and by config, thresholds, block-size limits, balance, over layouts large enough for
+      multi-stage plans; shuffle/take/fancy indexing; overlap with every boundary kind; reshape; store; from_* sources;
+      creation; random; linalg; routines) is walked in raw/simplified/lowered form (fused/materialized too when the
+      tree is small) under several configurations; which classes were reached is reported in the evidence.
+      The walker tolerates nodes whose `dependencies()` needs an optional package (P2PRechunk -> distributed):
+      the node's own estimate is judged and the walk continues through its array operands.
 Targeted: disagreeing helper inputs are lifted to `da.from_array(...).rechunk(...)` nodes.
 """
 from __future__ import annotations
@@ -320,7 +328,10 @@ def apply_step(da, a, step):
     if op == "getitem":
         return a[_dec_index(step[1])]
     if op == "rechunk":
-        return a.rechunk(_tt(step[1]))
+        kw = step[2] if len(step) > 2 and isinstance(step[2], dict) else {}
+        return a.rechunk(_tt(step[1]), **kw)
+    if op == "config":
+        return a
     if op == "reduce":
         _, name, axis, split_every, keepdims = step
         axis = tuple(axis) if isinstance(axis, list) else axis
@@ -362,13 +373,48 @@ def _ident(b):
     return b
 
 
+def prog_config(prog):
+    """The configuration a program is built AND inspected under (a ["config", {...}] step anywhere in it)."""
+    cfg = {}
+    for step in prog:
+        if step and step[0] == "config":
+            cfg.update(step[1])
+    return cfg
+
+
 def build(da, prog):
+    """Pure function of the program (call it inside `dask.config.set(prog_config(prog))`)."""
     src = prog[0]
-    shape = tuple(sum(c) for c in src[1])
-    a = da.from_array(np.arange(int(np.prod(shape)), dtype=src[2]).reshape(shape), chunks=_tt(src[1]))
+    if src[0] == "catalog":
+        from harness.props_ext import c27_catalog as CAT
+
+        with warnings.catch_warnings():
+            warnings.simplefilter("ignore")
+            a = CAT.build_catalog(da, src[1], src[2])[src[3]]
+    elif src[0] == "zeros":
+        a = da.zeros(tuple(src[1]), chunks=_tt(src[2]), dtype=src[3] if len(src) > 3 else "i8")
+    else:
+        shape = tuple(sum(c) for c in src[1])
+        a = da.from_array(np.arange(int(np.prod(shape)), dtype=src[2]).reshape(shape), chunks=_tt(src[1]))
     for step in prog[1:]:
         a = apply_step(da, a, step)
     return a
+
+
+def run_program(ctx, da, prog, seen, y=None):
+    """Build (unless given) and check a program under its own configuration."""
+    import dask
+
+    with dask.config.set(prog_config(prog)), warnings.catch_warnings():
+        warnings.simplefilter("ignore")  # PerformanceWarning / balance warnings of deliberately awkward layouts
+        if y is None:
+            y = build(da, prog)
+        t_ = ctx.elapsed()
+        check_program(ctx, da, prog, y, seen)
+        if ctx.elapsed() - t_ > 2.0:
+            ctx.extra.setdefault("slow_programs", [])
+            if len(ctx.extra["slow_programs"]) < 5:
+                ctx.extra["slow_programs"].append({"seconds": round(ctx.elapsed() - t_, 1), "program": prog if len(repr(prog)) < 600 else repr(prog)[:600]})
 
 
 def gen_step(rng, a):
@@ -415,7 +461,15 @@ def gen_step(rng, a):
     if op == "add_vec":
         return ["add_vec", list(gen.rand_chunks(rng, int(shape[-1]), maxparts=6))]
     if op == "rechunk":
-        return ["rechunk", [list(gen.rand_chunks(rng, int(s), maxparts=8)) for s in shape]]
+        step = ["rechunk", [list(gen.rand_chunks(rng, int(s), maxparts=8)) for s in shape]]
+        if rng.random() < 0.3:
+            kw = {"method": rng.choice(["p2p", "p2p", "tasks"])}
+            if rng.random() < 0.3:
+                kw["balance"] = True
+            if rng.random() < 0.3:
+                kw["threshold"] = rng.choice([1, 2, 1000])
+            step.append(kw)
+        return step
     if op == "getitem":
         idx = []
         for s in shape:
@@ -454,9 +508,16 @@ def gen_step(rng, a):
     return ["scalar"]
 
 
-def gen_program(ctx, da):
+def gen_program(ctx, da, cfg=None):
     """Seeded program: a source plus up to 5 steps; a step refused at CONSTRUCTION
-    (ValueError / NotImplementedError) is dropped and counted."""
+    (ValueError / NotImplementedError) is dropped and counted.  With `cfg`, built under that configuration
+    (recorded as a trailing ["config", cfg] step)."""
+    if cfg:
+        import dask
+
+        with dask.config.set(cfg):
+            prog, a = gen_program(ctx, da)
+        return prog + [["config", cfg]], a
     rng = ctx.rng
     shape = gen.rand_shape(rng, maxrank=3, maxdim=9, allow_zero=True)
     chunks = [list(gen.rand_chunks(rng, s, zeros=0.05, maxparts=6)) for s in shape]
@@ -485,28 +546,75 @@ def _has_nan(chunks):
     return any(isinstance(c, float) and math.isnan(c) for dim in chunks for c in dim)
 
 
+REACHED = {}  # node class name -> set of phases (per process; reported in the evidence)
+DEPS_IMPORT_ERRORS = {}  # class name -> count of dependencies() calls that needed a missing optional package
+PROBE_FAILS = {}  # direct same-chunks probe: class name -> programs on which it reported a non-zero estimate
+HEAVY_TASKS = 3000  # above this many tasks in some node's layer, graph-building phases / layer oracles are skipped
+
+
+def safe_deps(node, ArrayExpr):
+    """node.dependencies(); when that needs an optional package that is not installed (P2PRechunk imports
+    `distributed` to compute its pre-chunked input) fall back to the node's array operands, so that the node's own
+    estimate can still be judged and the walk continues below it."""
+    try:
+        return list(node.dependencies())
+    except ImportError:
+        DEPS_IMPORT_ERRORS[type(node).__name__] = DEPS_IMPORT_ERRORS.get(type(node).__name__, 0) + 1
+        out = []
+        for op in node.operands:
+            if isinstance(op, ArrayExpr):
+                out.append(op)
+            elif isinstance(op, (list, tuple)):
+                out.extend(o for o in op if isinstance(o, ArrayExpr))
+        return out
+
+
+def walk_tolerant(e, ArrayExpr):
+    """Every distinct node of the tree (like Expr.walk, but through safe_deps)."""
+    stack, names = [e], set()
+    while stack:
+        node = stack.pop()
+        name = getattr(node, "_name", None)
+        if name is None or (type(node), name) in names:
+            continue
+        names.add((type(node), name))
+        yield node
+        try:
+            stack.extend(d for d in safe_deps(node, ArrayExpr) if hasattr(d, "_name"))
+        except Exception:  # noqa: BLE001 - an ill-formed node: judged (and noted) by check_node
+            continue
+
+
 def node_unknown(node, ArrayExpr):
     """Some chunk size of the node or of one of its direct array inputs is unknown."""
     if _has_nan(node.chunks):
         return True
-    for dep in node.dependencies():
+    for dep in safe_deps(node, ArrayExpr):
         if isinstance(dep, ArrayExpr) and _has_nan(dep.chunks):
             return True
     return False
 
 
-def check_node(ctx, node, prog, phase, ArrayExpr, Alias, seen):
-    if node._name in seen:
-        return
-    seen.add(node._name)
+def _nblocks(node):
+    n = 1
+    for k in node.numblocks:
+        n *= k
+    return n
+
+
+def check_node(ctx, node, prog, phase, ArrayExpr, Alias, seen, light=False):
     cls = type(node).__name__
+    # (class, name): RootAlias deliberately carries the RAW root's name, a different node with its own estimate
+    if (cls, node._name) in seen:
+        return
+    seen.add((cls, node._name))
     case = {"program": prog, "phase": phase, "node_class": cls}
     try:
         # the node's own metadata must exist before its estimate can be judged: a rewritten tree whose
         # `chunks` raises (layout-drift rewrites, see C02/C03/C08) is ill-formed for reasons that are not C27's
         unknown = node_unknown(node, ArrayExpr)
         node.numblocks, node.dtype
-        for dep in node.dependencies():
+        for dep in safe_deps(node, ArrayExpr):
             if isinstance(dep, ArrayExpr):
                 dep.numblocks, dep.nbytes
     except Exception as e:
@@ -531,7 +639,8 @@ def check_node(ctx, node, prog, phase, ArrayExpr, Alias, seen):
         ctx.fail(f"node:not-a-pair:{cls}", dict(case, got=repr(tb)), "transfer_bytes is not a (min, max) pair")
         return
     lo, hi = tb
-    case["chunks"] = repr(node.chunks)
+    REACHED.setdefault(cls, set()).add(phase)
+    case["chunks"] = repr(node.chunks) if _nblocks(node) <= 64 else f"<{node.numblocks} blocks>"
     case["got"] = [repr(lo), repr(hi)]
     why = wellformed_pair(lo, hi)
     if why == "nan":
@@ -549,8 +658,18 @@ def check_node(ctx, node, prog, phase, ArrayExpr, Alias, seen):
     if unknown:
         ctx.notes["nodes_unknown_sizes_finite_estimate"] = ctx.notes.get("nodes_unknown_sizes_finite_estimate", 0) + 1
     # alias oracle (independent of transfer_bytes): a node whose own layer consists of Alias tasks only
+    # a rechunk (of any flavour) found in a tree whose target chunks equal its input's chunks moves nothing
+    if "Rechunk" in cls and not unknown:
+        try:
+            same = tuple(node.chunks) == tuple(node.array.chunks)
+        except Exception:  # noqa: BLE001
+            same = False
+        if same:
+            ctx.count(("node-same-rechunk", cls, phase))
+            if float(lo) != 0 or float(hi) != 0:
+                ctx.fail(f"same-rechunk:nonzero:{cls}", case, "a rechunk node whose chunks equal its input's chunks reports a non-zero transfer estimate")
     is_alias = False
-    if phase in ("lowered", "lowered-raw", "fused", "materialized") and cls != "FromArray":
+    if not light and phase in ("lowered", "lowered-raw", "fused", "materialized") and cls != "FromArray" and node_graph_cost(node) <= HEAVY_TASKS:
         try:
             # pure alias routing: EVERY task of the layer is an Alias and every alias points outside the layer
             # (private helper tasks such as rechunk-split getitems or the flattened-mask getitems disqualify it)
@@ -564,8 +683,10 @@ def check_node(ctx, node, prog, phase, ArrayExpr, Alias, seen):
     ctx.count(("node", phase, cls, float(lo) == 0, float(lo) == float(hi), is_alias, unknown))
 
 
-def trees_of(ctx, y):
-    """(phase, expression) for raw and optimized forms, the way _collection/_materialize obtain them."""
+def trees_of(ctx, y, ArrayExpr):
+    """([(phase, expression)], light) for raw and optimized forms, the way _collection/_materialize obtain them.
+    `light` (some node of the metadata-only forms is heavy): no fusion / materialization / layer oracles, which
+    build task graphs."""
     from dask_array._materialize import _lower, _materialize
 
     out = [("raw", y.expr)]
@@ -583,21 +704,50 @@ def trees_of(ctx, y):
     attempt("simplified", lambda: y.expr.simplify())
     attempt("lowered-raw", lambda: _lower(y.expr, optimize_graph=False))
     low = attempt("lowered", lambda: y.expr.simplify().lower_completely())
-    if low is not None:
-        attempt("fused", lambda: low.fuse())
-    attempt("materialized", lambda: _materialize(y.expr))
-    return out
+    attempt("optimized", lambda: y.expr.optimize(fuse=False))
+    light = any(is_heavy(e, ArrayExpr) for _ph, e in out)
+    if not light:
+        if low is not None:
+            attempt("fused", lambda: low.fuse())
+        attempt("materialized", lambda: _materialize(y.expr))
+    return out, light
+
+
+def node_graph_cost(node):
+    """A cheap upper estimate of the number of tasks in the node's own layer: its blocks; for rechunk-like nodes
+    the number of (old block, new block) crossings, prod over axes of (old blocks + new blocks)."""
+    n = _nblocks(node)
+    if "Rechunk" in type(node).__name__:
+        try:
+            c = 1
+            for o, nw in zip(node.array.chunks, node.chunks):
+                c *= len(o) + len(nw)
+            n = max(n, c)
+        except Exception:  # noqa: BLE001
+            pass
+    return n
+
+
+def is_heavy(e, ArrayExpr):
+    """Some node of the tree would have a layer of more than HEAVY_TASKS tasks."""
+    try:
+        return any(isinstance(n, ArrayExpr) and node_graph_cost(n) > HEAVY_TASKS for n in walk_tolerant(e, ArrayExpr))
+    except Exception:  # noqa: BLE001
+        return True
 
 
 def check_program(ctx, da, prog, y, seen):
     from dask._task_spec import Alias
     from dask_array._expr import ArrayExpr
-    from dask_array._rechunk import Rechunk, TasksRechunk
+    from dask_array._rechunk import P2PRechunk, Rechunk, TasksRechunk
 
-    for phase, e in trees_of(ctx, y):
-        for node in e.walk():
+    trees, light = trees_of(ctx, y, ArrayExpr)
+    if light:
+        ctx.notes["programs_metadata_phases_only"] = ctx.notes.get("programs_metadata_phases_only", 0) + 1
+    for phase, e in trees:
+        for node in walk_tolerant(e, ArrayExpr):
             if isinstance(node, ArrayExpr):
-                check_node(ctx, node, prog, phase, ArrayExpr, Alias, seen)
+                check_node(ctx, node, prog, phase, ArrayExpr, Alias, seen, light or phase in ("raw", "simplified"))
     # the collection reports its root's estimate
     try:
         same = tuple(map(repr, y.transfer_bytes)) == tuple(map(repr, y.expr.transfer_bytes))
@@ -607,7 +757,8 @@ def check_program(ctx, da, prog, y, seen):
         ctx.fail("array:transfer_bytes-differs-from-root", {"program": prog}, "Array.transfer_bytes differs from its root expression's")
     # a rechunk to the same chunks moves nothing
     if not _has_nan(y.chunks):
-        for name, mk in (("Rechunk", lambda: Rechunk(y.expr, y.chunks)), ("TasksRechunk", lambda: TasksRechunk(y.expr, y.chunks, None, None))):
+        for name, mk in (("Rechunk", lambda: Rechunk(y.expr, y.chunks)), ("TasksRechunk", lambda: TasksRechunk(y.expr, y.chunks, None, None)),
+                         ("Rechunk-p2p", lambda: Rechunk(y.expr, y.chunks, None, None, None, "p2p")), ("P2PRechunk", lambda: P2PRechunk(y.expr, y.chunks))):
             try:
                 tb = tuple(mk().transfer_bytes)
             except Exception as ex:
@@ -616,6 +767,11 @@ def check_program(ctx, da, prog, y, seen):
                 continue
             ctx.count(("same-rechunk", name, y.ndim, any(0 in c for c in y.chunks)))
             if not (tb[0] == 0 and tb[1] == 0):
+                # the direct probe runs on every program: a class-wide defect is recorded for the first few programs only
+                PROBE_FAILS[name] = PROBE_FAILS.get(name, 0) + 1
+                if PROBE_FAILS[name] > 3:
+                    ctx.notes[f"same-rechunk.nonzero.{name}.further_programs"] = PROBE_FAILS[name] - 3
+                    continue
                 ctx.fail(f"same-rechunk:nonzero:{name}", {"program": prog, "probe": f"{name}(y.expr, y.chunks)", "chunks": repr(y.chunks), "got": list(map(repr, tb))},
                          "a rechunk to identical chunks reports a non-zero transfer estimate")
         # pure-alias wrapper
@@ -626,9 +782,13 @@ def check_program(ctx, da, prog, y, seen):
             ctx.fail("alias:ChunksFreeze-nonzero", {"program": prog, "probe": "y.freeze_chunks()", "got": list(map(repr, tb))}, "ChunksFreeze reports a non-zero estimate")
 
 
-# programs of the two classes found on the unchanged tree (dedicated probes: run on every seed so that the
+# programs of the classes found on the unchanged tree (dedicated probes: run on every seed so that the
 # signature is reported deterministically -> KNOWN-FINDING line once listed, silent once fixed)
 PROBES = [
+    # balance=True keeps a rechunk to identical chunks alive through lowering; with method="p2p" (kwarg or config) the
+    # lowered P2PRechunk (chunks == input chunks) reports max = input nbytes
+    [["zeros", [8], [[4, 4]], "i8"], ["rechunk", [[4, 4]], {"balance": True, "method": "p2p"}]],
+    [["zeros", [8, 8], [[4, 4], [4, 4]], "i8"], ["rechunk", [[4, 4], [4, 4]], {"balance": True}], ["config", {"array.rechunk.method": "p2p"}]],
     # Blockwise.transfer_bytes hashes the (list) index operand built by tensordot/dot/vdot: TypeError
     [["from_array", [[3]], "i8"], ["dotvec", [3]]],
     # BooleanIndexFlattened: layer is pure Alias routing but the default estimate reports max = input nbytes
@@ -639,37 +799,49 @@ PROBES = [
 
 def search_trees(ctx):
     import dask_array as da
+    from harness.props_ext import c27_catalog as CAT
 
     seen = set()
     for prog in PROBES:
-        check_program(ctx, da, prog, build(da, prog), seen)
+        run_program(ctx, da, prog, seen)
     nprog = ctx.scale(1500, 20000)
-    budget = ctx.scale(35, 420)
+    budget = ctx.scale(22, 300)
     t0 = ctx.elapsed()
     done = 0
-    for _ in range(nprog):
+    under_cfg = {}
+    for i in range(nprog):
         if ctx.elapsed() - t0 > budget:
             break
-        prog, y = gen_program(ctx, da)
-        check_program(ctx, da, prog, y, seen)
+        # every 4th program is built, lowered and inspected under a non-default configuration (rechunks inserted by
+        # lowering -- chunk unification, reshape, overlap -- then become P2PRechunk / multi-stage TasksRechunk nodes)
+        cfg = CAT.rand_config(ctx.rng) if i % 4 == 3 else {}
+        prog, y = gen_program(ctx, da, cfg)
+        run_program(ctx, da, prog, seen, y)
         done += 1
+        if cfg:
+            k = ",".join(f"{a.split('.')[-1]}={b}" for a, b in sorted(cfg.items()))
+            under_cfg[k] = under_cfg.get(k, 0) + 1
         if done % 50 == 1:
             ctx.sample({"program": prog, "root": type(y.expr).__name__, "transfer_bytes": list(map(repr, y.expr.transfer_bytes))})
     ctx.notes["programs"] = done
+    ctx.notes["programs_under_config"] = under_cfg
     multistage_rechunk_stream(ctx, da, seen)
+    catalog_stream(ctx, da, seen, CAT)
     ctx.notes["distinct_nodes_checked"] = len(seen)
+    coverage_report(ctx, CAT)
 
 
 def multistage_rechunk_stream(ctx, da, seen):
     """Rechunk nodes whose plan has several stages (the estimate sums over plan_rechunk's stages):
     large fan-in merges/splits at the default configuration and moderate ones under small
-    array.rechunk.degree-limit / threshold / chunk-size.  Well-formedness of every node of the raw and
-    lowered trees; the number of planned stages is recorded."""
+    array.rechunk.degree-limit / threshold / chunk-size, with method None / tasks / p2p.  Well-formedness of every
+    node of the raw and lowered trees; the number of planned stages is recorded."""
     import dask
     from dask_array._rechunk import plan_rechunk
 
     rng = ctx.rng
-    cases = [((400,), ((1,) * 400,), ((400,),), {}), ((400,), ((400,),), ((1,) * 400,), {})]
+    cases = [((400,), ((1,) * 400,), ((400,),), {}, None), ((400,), ((400,),), ((1,) * 400,), {}, None),
+             ((400,), ((1,) * 400,), ((400,),), {}, "p2p"), ((400,), ((400,),), ((1,) * 400,), {}, "p2p")]
     for _ in range(ctx.scale(60, 600)):
         nd = rng.choice([1, 1, 2])
         shape = tuple(rng.choice([16, 24, 32, 64]) for _ in range(nd))
@@ -685,20 +857,123 @@ def multistage_rechunk_stream(ctx, da, seen):
         new = tuple(lay(n, {"fine": "coarse", "coarse": "fine", "rand": "rand"}[k]) for n, k in zip(shape, kinds))
         cfg = {"array.rechunk.degree-limit": rng.choice([2, 3, 4, 8, 100]), "array.rechunk.threshold": rng.choice([1, 4, 32]),
                "array.chunk-size": rng.choice(["64B", "1KiB", "128MiB"])}
-        cases.append((shape, old, new, cfg))
+        if rng.random() < 0.25:
+            cfg["array.rechunk.method"] = rng.choice(["p2p", "tasks"])
+        cases.append((shape, old, new, cfg, rng.choice([None, None, "tasks", "p2p"])))
     stages_seen = {}
-    for shape, old, new, cfg in cases:
-        prog = [["zeros", list(shape), [list(c) for c in old]], ["rechunk", [list(c) for c in new]], ["config", cfg]]
+    for shape, old, new, cfg, method in cases:
+        prog = [["zeros", list(shape), [list(c) for c in old], "i8"], ["rechunk", [list(c) for c in new], {"method": method}], ["config", cfg]]
         try:
-            with dask.config.set(cfg):
-                y = da.zeros(shape, chunks=old, dtype="i8").rechunk(new)
+            with dask.config.set(cfg), warnings.catch_warnings():
+                warnings.simplefilter("ignore")
+                y = build(da, prog)
                 nst = len(plan_rechunk(old, new, 8))
                 stages_seen[nst] = stages_seen.get(nst, 0) + 1
-                ctx.count(("multistage", min(nst, 4), len(shape)))
+                ctx.count(("multistage", min(nst, 4), len(shape), method))
                 check_program(ctx, da, prog, y, seen)
         except Exception as e:  # noqa: BLE001
             ctx.fail("multistage-rechunk:raises:" + type(e).__name__, {"program": prog, "error": repr(e)[:200]}, "building/inspecting a multi-stage rechunk raises")
     ctx.notes["multistage_rechunk_stage_histogram"] = {str(k): v for k, v in sorted(stages_seen.items())}
+
+
+def catalog_stream(ctx, da, seen, CAT):
+    """Class-coverage stream (see harness/props_ext/c27_catalog.py): every family, every variant of a family in
+    every run (stratified), seeded parameters, a seeded configuration; each output array of a builder is a program
+    `[["catalog", family, params, out], ["config", cfg]]` checked like any other program."""
+    import dask
+
+    rng = ctx.rng
+    reps = ctx.scale(1, 6)
+    budget = ctx.scale(26, 200)
+    t0 = ctx.elapsed()
+    plan = []
+    for fam, (g, _b, weight, variants) in CAT.CATALOG.items():
+        for v in variants:
+            plan += [(fam, v)] * max(1, round(weight * reps))
+    # seeded order so that a budget cut does not always hit the same families
+    rng.shuffle(plan)
+    built = {}
+    plan_stage_hist = {}
+    for fam, v in plan:
+        if ctx.elapsed() - t0 > budget:
+            ctx.notes["catalog_budget_cut"] = ctx.notes.get("catalog_budget_cut", 0) + 1
+            continue
+        params = CAT.CATALOG[fam][0](rng, v)
+        cfg = CAT.rand_config(rng)
+        key = f"{fam}.{v}" if v is not None else fam
+        try:
+            with dask.config.set(cfg), warnings.catch_warnings():
+                warnings.simplefilter("ignore")
+                outs = CAT.build_catalog(da, fam, params)
+                for o in outs:
+                    o.chunks, o.dtype
+        except ImportError as e:  # optional dependency (scipy, distributed, ...) needed at construction
+            k = f"catalog_needs_optional_package.{key}.{getattr(e, 'name', None) or type(e).__name__}"
+            ctx.notes[k] = ctx.notes.get(k, 0) + 1
+            continue
+        except REFUSALS:
+            ctx.notes["catalog_construction_refusals"] = ctx.notes.get("catalog_construction_refusals", 0) + 1
+            ctx.extra.setdefault("catalog_refusals", {})
+            ctx.extra["catalog_refusals"][key] = ctx.extra["catalog_refusals"].get(key, 0) + 1
+            continue
+        except Exception as e:  # noqa: BLE001 - a catalog entry that cannot be constructed is not a transfer-estimate matter
+            k = f"catalog_construction_errors.{key}.{type(e).__name__}"
+            ctx.notes[k] = ctx.notes.get(k, 0) + 1
+            ctx.extra.setdefault("catalog_construction_error_examples", {})
+            ctx.extra["catalog_construction_error_examples"].setdefault(k, {"family": fam, "params": params, "config": cfg, "error": repr(e)[:200]})
+            continue
+        built[key] = built.get(key, 0) + 1
+        for i, y in enumerate(outs):
+            prog = [["catalog", fam, params, i], ["config", cfg]]
+            ctx.count(("catalog", fam, v, bool(cfg.get("array.rechunk.method"))))
+            if fam == "rechunk_big":
+                try:
+                    with dask.config.set(cfg):
+                        nst = CAT.planned_stages(da, params)
+                    plan_stage_hist[nst] = plan_stage_hist.get(nst, 0) + 1
+                    ctx.count(("catalog-stages", min(nst, 5), params["method"], cfg.get("array.rechunk.method")))
+                except Exception:  # noqa: BLE001
+                    pass
+            run_program(ctx, da, prog, seen, y)
+    ctx.notes["catalog_cases_built"] = sum(built.values())
+    ctx.extra["catalog_built_per_variant"] = built
+    ctx.notes["catalog_rechunk_big_stage_histogram"] = {str(k): v for k, v in sorted(plan_stage_hist.items())}
+
+
+def coverage_report(ctx, CAT):
+    """Which classes were reached by the node search of this run (enumerated from the source on every run)."""
+    definers = CAT.defining_classes()
+    subs = CAT.arrayexpr_subclasses()
+    names = {c.__name__ for c in subs}
+    # classes that define transfer_bytes and are expression classes (the collection `Array` only forwards)
+    expr_definers = sorted(n for n in definers if n in names or n == "ArrayExpr")
+    reached_definers = {}
+    for c in subs:
+        if c.__name__ in REACHED:
+            d = CAT.definer_of(c)
+            reached_definers.setdefault(d, set()).add(c.__name__)
+    missing = [d for d in expr_definers if d not in reached_definers]
+    ctx.extra["transfer_bytes_definers"] = {
+        "enumerated_from_source": definers,
+        "expression_classes": expr_definers,
+        "reached": {d: sorted(v) for d, v in sorted(reached_definers.items()) if d in expr_definers},
+        "unreached": missing,
+    }
+    unreached_cls = sorted(names - set(REACHED))
+    ctx.extra["arrayexpr_subclasses"] = {
+        "total": len(names), "reached": len(names & set(REACHED)),
+        "reached_phases": {k: sorted(v) for k, v in sorted(REACHED.items())},
+        "unreached": unreached_cls,
+    }
+    ctx.notes["transfer_bytes_definers_reached"] = f"{len(expr_definers) - len(missing)}/{len(expr_definers)}"
+    ctx.notes["arrayexpr_subclasses_reached"] = f"{len(names & set(REACHED))}/{len(names)}"
+    if missing:
+        ctx.notes["transfer_bytes_definers_UNREACHED"] = ",".join(missing)
+    if DEPS_IMPORT_ERRORS:
+        ctx.notes["dependencies_needing_optional_package_tolerated"] = dict(DEPS_IMPORT_ERRORS)
+    for d in expr_definers:
+        if d in reached_definers:
+            ctx.count(("definer-reached", d))
 
 
 # ------------------------------------------------------------------ targeted search
@@ -766,8 +1041,13 @@ def run(ctx, replay=None):
         "layouts: all pairs of layouts of n <= N (ordered compositions; zero-length blocks for n <= Z, <= 4 parts), every "
         "grouping of a layout as a pure split, small 2-D products, + seeded random large layouts; expression nodes: seeded "
         "programs (from_array + <= 5 ops) walked in raw/simplified/lowered/fused/materialized form, each distinct node "
-        "(by expression name) checked once; a case class is (helper, kind, zero/equal flags, size class) or "
-        "(phase, node class, min==0, min==max, alias, unknown-sizes)"
+        "(by class and expression name) checked once, every 4th program under a non-default configuration "
+        "(array.rechunk.method/degree-limit/threshold/chunk-size); multi-stage rechunks with method None/tasks/p2p; a class-coverage "
+        "catalog (harness/props_ext/c27_catalog.py: every variant of rechunk-big/chain/auto, shuffle, take, overlap, reshape, store, "
+        "sources, random, linalg, routines in every run, seeded parameters and configuration, large layouts walked in the "
+        "metadata-only phases); the classes defining transfer_bytes are enumerated from the source and the reached ones reported; "
+        "a case class is (helper, kind, zero/equal flags, size class) or (phase, node class, min==0, min==max, alias, unknown-sizes) "
+        "or (catalog family, variant, config-method)"
     )
     ctx.assumptions = [
         "integer layouts with totals < 2**40: the float sums/products in moved_fraction/_rechunk_stage_transfer are exact, so "
@@ -776,12 +1056,15 @@ def run(ctx, replay=None):
         "sliding windows, Shuffle) are covered by the node search only, not by a Lean model",
         "NaN direction checked: NaN => an unknown chunk size on the node or a direct input (unknown sizes need not give NaN, "
         "e.g. BooleanIndex reads inputs of known size)",
+        "nodes whose dependencies() needs an uninstalled optional package (P2PRechunk -> distributed) are judged on their own "
+        "estimate and walked through their array operands; their fused/materialized forms cannot be built here (noted as "
+        "optimize_raises.*.ModuleNotFoundError); scipy-only classes (LU*, Lstsq*, SolveTriangular) and non-tree helpers "
+        "(ConcatenateArrayChunks inside SetItem's layer, FinalizeComputeArray) are not reached",
     ]
     if replay is not None:
         case = replay.get("case", replay)
         if "program" in case:
-            y = build(da, case["program"])
-            check_program(ctx, da, case["program"], y, set())
+            run_program(ctx, da, case["program"], set())
         elif case.get("fn") == "moved_fraction":
             check_moved(ctx, MF, tuple(case["src"]), tuple(case["dst"]), case.get("kind", "pair"))
         elif case.get("fn") == "_rechunk_stage_transfer":
